@@ -113,7 +113,10 @@ def gen_ids(r, n, cls, prefix):
                 'sample-id', 'sample id', 'featureid', 'feature-id',
                 'FeatureID', 'feature id', 'ID', 'Id', 'name', 'index',
                 'OTUID', 'otu id']
-        pool = [p if prefix.lower() < 'p' else p + '_' for p in pool]
+        # (the second axis gets half of them with a mark, so that the two
+        # axes share some names but not all)
+        pool = [p if prefix.lower() < 'p' or r.random() < .5 else p + '_'
+                for p in pool]
         r.shuffle(pool)
         return _uniq(r, n, lambda i: pool[i] if i < len(pool)
                      else prefix + str(r.randrange(10 ** 6)))
